@@ -97,7 +97,9 @@ pub fn substr(items: &Vec<&Value>) -> Result<Value, Error> {
         })
         .transpose()?;
 
-    let string_len = string.len();
+    // Length in characters, the unit in which the slice is taken below
+    // (`len()` would be bytes and misplace indices on non-ASCII text).
+    let string_len = string.chars().count();
 
     let idx_abs: usize = idx.unsigned_abs().try_into().map_err(|e| Error::InvalidArgument {
         value: idx_arg.clone(),
